@@ -13,7 +13,8 @@ RULE = ('hypothesis: dimension lists of length 2..5 with entries 2..4 (product <
         'dimA,dimB 2..4, k 1..5 while dA*dB^k <= 1024 [4096], numpy and torch. Oracle: explicit loops / successive np.trace, my own Dicke '
         'vectors (uniform superposition of distinct arrangements), explicit embedding + tracing k-1 copies. Non-trivial = >=3 subsystems with a '
         'non-contiguous keep-set or unequal dims; Dicke with k>=2 and dimB>=3. Distinct = (dims, kind) / (k, dim) / (dA, dB, k, backend).'
-        ' Operators also Fortran-ordered / strided / read-only, of integer / complex64 / real dtype, dims and keep also as (negative-stride) integer arrays; vectors of norm 0.5 and 3 (trace = squared norm); second-call clause for Dicke / get_dicke_basis.')
+        ' Operators also Fortran-ordered / strided / read-only, of integer / complex64 / real dtype, dims and keep also as (negative-stride) integer arrays; vectors of norm 0.5 and 3 (trace = squared norm); second-call clause for Dicke / get_dicke_basis.'
+        ' Real-dtype torch weight tensors; an earlier partial trace compared after a later call with the same dims / keep-set.')
 ASSUMPTIONS = ['the order of the Dicke basis is the documented get_dicke_klist order (each klist itself is validated independently)',
                'empty keep-set is outside the domain (the function reshapes to a float-sized array there)']
 
